@@ -23,6 +23,42 @@ TEXT = {
         note='Stale reads of trivially relocatable elements that yield the right value are invisible (no hook can sit in memmove); the quick tier '
              'runs under ASan+UBSan, the thorough tier in both builds.',
         ref='4/C02'),
+    'C03': dict(
+        technique=SIM + 'std::set reference model compared after every step, poisoned default-constructed comparator probe',
+        text='Seeded histories over a pool of FlatSets (insert value/rvalue/hint/range/initializer list/node, emplace, emplace_hint, three erase forms, '
+             'all lookups incl. heterogeneous keys, both merges, extract, swap, copy, move, comparisons, construction/assignment from a vector, '
+             'steal_vector) over four underlying vector kinds, compared step by step with std::set under the same comparator semantics: same '
+             'elements by identity (which of several equivalent values is kept), strictly increasing order, booleans, counts, bounds; a '
+             'comparator that reports every use of a default-constructed instance decides "the stored comparator object is used".',
+        note='Trusts libstdc++ std::set as the reference; equal_range of an absent key is compared only for emptiness; FlatSet over a '
+             'FixedCapacityVector is never driven beyond its capacity in this engine.',
+        ref='4/C03'),
+    'C04': dict(
+        technique=SIM + 'std::set reference model compared as a set after every step across the inline/large transition',
+        text='Seeded histories over SmallSets with N in {1,2,3,5}, both backings, key domains of 3-9 keys so that every small (content, state) is '
+             'reached quickly, with grow-past-N / drain / refill macros, merges between sets of different N, comparator type and ordering, and '
+             'comparisons between inline and large sets; contents compared as a set, plus size, emptiness, membership, insertion booleans, erase '
+             'counts and comparison results.',
+        note='The iteration order of an inline SmallSet is unspecified: a merge whose outcome would depend on it (two source elements equivalent '
+             'under the destination comparator) is not generated. Reach of the small scopes is measured, not exhaustive.',
+        ref='4/C04'),
+    'C11': dict(
+        technique=SIM + 'iterator-contract oracle: every returned iterator is matched against a fresh begin()..end() walk before any dereference',
+        text='SmallSet histories with a full forward and reverse walk after every step, erase(position) at every position including the last '
+             'element of a large set, bounded erase-while-iterating loops: each walk visits every model element exactly once, a returned '
+             'iterator equals end() exactly when the model says it designates nothing and otherwise designates the model\'s element, loops '
+             'terminate within size()+1 iterations.',
+        note='A returned iterator that is neither end() nor a position of the walk is reported as a contract violation instead of being '
+             'dereferenced; crashes (bad_variant_access inside noexcept) are still caught by the crash-surviving workers.',
+        ref='4/C11'),
+    'C19': dict(
+        technique=SIM + 'comparator-seam invocation counter per lookup / position search, checked against the stated bounds',
+        text='Every FlatSet lookup and position search in histories with bulk-built sets of up to 1024 (quick) / 4096 (thorough) elements is '
+             'charged at the comparator seam: <= 2*ceil(log2(n+1))+4 calls; insertion with the correct hint (computed from the model) <= 16 calls '
+             'whatever n; inline SmallSet find/contains/count <= 2N+2.',
+        note='No fault, schedule or environment decision enters this property: it is an invariant monitor riding on the simulated histories '
+             '(criterion (b), the comparator seam). Not an exhaustive sweep over n, keys and ranks.',
+        ref='4/C19'),
     'C05': dict(
         technique=SIM + 'allocator-seam and global operator new / malloc call counters, capacity()==N and data()-inside-object monitor',
         text='Histories biased to stay within N with a high rate of copy / move / swap / construction between containers; a per-container '
